@@ -164,6 +164,15 @@ static void runGrid(const Opt &o, Ev &ev) {
         if (!run({mkArr(elem, f, n, o.seed + n * 31 + (uint64_t) elem)})) return;
         if (n <= 12 || n % 25 == 0) if (!run({mkInt(7), mkArr(elem, f, n, o.seed + n), mkInt(-3)})) return;
     }
+    // far beyond: byte counts around the 15/16-bit marks and six-digit headers
+    for (size_t n : {(size_t) 8191, (size_t) 8192, (size_t) 16383, (size_t) 16384, (size_t) 17000, (size_t) 33000}) for (int elem : {1, 3, 4, 7}) {
+        if (!run({mkArr(elem, elem & 1 ? (int) SCPI_FORMAT_NORMAL : (int) SCPI_FORMAT_SWAPPED, n, o.seed + n)})) return;
+    }
+    for (size_t n : {(size_t) 32767, (size_t) 32768, (size_t) 65535, (size_t) 65536, (size_t) 100000}) {
+        if (!run({mkBytes(O_BLOCK, n, o.seed + n), mkInt(1)})) return;
+        OItem d1 = mkBytes(O_BLOCKDATA, n / 2, o.seed), d2 = mkBytes(O_BLOCKDATA, n - n / 2, o.seed + 1);
+        if (!run({mkHdr(n), d1, d2, mkInt(2)})) return;
+    }
     for (size_t n = 0; n <= 300; n++) { if (!run({mkBytes(O_BLOCK, n, o.seed + n)})) return; if (n <= 12) if (!run({mkBytes(O_BLOCK, n, 1), mkBytes(O_BLOCK, n, 2), mkInt(1)})) return; }
     // header-only calls for large lengths (followed by one empty data call)
     for (uint64_t n : {9ULL, 10ULL, 99ULL, 100ULL, 999ULL, 1000ULL, 9999ULL, 10000ULL, 99999ULL, 100000ULL, 999999ULL, 1000000ULL, 9999999ULL, 10000000ULL, 99999999ULL, 100000000ULL, 999999999ULL})
